@@ -10,7 +10,7 @@ HARNESS = os.path.join(ROOT, "harness")
 GV = os.path.join(OUT, "target", "release", "gv")
 TLA_CP = "/opt/veriftools/tla/tla2tools.jar:/opt/veriftools/tla/CommunityModules-deps.jar"
 KNOWN = os.path.join(ROOT, "KNOWN_FINDINGS.txt")
-NPROC = os.cpu_count() or 8
+NPROC = int(os.environ.get("GV_NPROC", "0")) or os.cpu_count() or 8   # GV_NPROC: development aid to share the machine
 
 
 class ToolError(Exception):
